@@ -868,14 +868,45 @@ func (c *Ctx) c12MeasuredQuantity() {
 			}
 		}
 	}
+	limitField := func(n ast.Node) string {
+		if sel, ok := n.(*ast.SelectorExpr); ok {
+			if sl := info.Selections[sel]; sl != nil && sl.Kind() == types.FieldVal {
+				if _, isLimit := want[selFieldName(sl)]; isLimit && fieldOwnerName(sl.Obj().(*types.Var)) == "Config" {
+					return selFieldName(sl)
+				}
+			}
+		}
+		return ""
+	}
+	// locals that hold a limit: `limit := c.Config.HeapInUseSoftLimit`
+	alias := map[types.Object]string{}
+	for _, bd := range c.reachBodies(fd, 3) {
+		ast.Inspect(bd.Body, func(n ast.Node) bool {
+			as, ok := n.(*ast.AssignStmt)
+			if !ok || len(as.Lhs) != len(as.Rhs) {
+				return true
+			}
+			for i, l := range as.Lhs {
+				if id, ok := l.(*ast.Ident); ok {
+					if f := limitField(ast.Unparen(as.Rhs[i])); f != "" {
+						if o := info.ObjectOf(id); o != nil {
+							alias[o] = f
+						}
+					}
+				}
+			}
+			return true
+		})
+	}
 	mentions := func(e ast.Expr) string {
 		res := ""
 		ast.Inspect(e, func(n ast.Node) bool {
-			if sel, ok := n.(*ast.SelectorExpr); ok {
-				if sl := info.Selections[sel]; sl != nil && sl.Kind() == types.FieldVal {
-					if _, isLimit := want[selFieldName(sl)]; isLimit && fieldOwnerName(sl.Obj().(*types.Var)) == "Config" {
-						res = selFieldName(sl)
-					}
+			if f := limitField(n); f != "" {
+				res = f
+			}
+			if id, ok := n.(*ast.Ident); ok {
+				if f := alias[info.ObjectOf(id)]; f != "" {
+					res = f
 				}
 			}
 			return true
